@@ -256,6 +256,7 @@ static void history_line(char *line)
     }
     if (adv == 0) break;
   }
+  printf(" warnings:%ld", e.num_warnings);     /* > 0: the entropy decoder lost sync (jpeg_skip_scanlines hazards, property C08) */
   jpeg_finish_decompress(&d); jpeg_destroy_decompress(&d);
   free(jpg); free(src); free(rowbuf); putchar('\n');
 }
